@@ -86,10 +86,14 @@ def module_include(name, p, pos, attrs=()):
     return base[:start] + f"ascent_source! {{ {name}_src:\n      {src}\n   }}\n   ascent! {{\n      {body}\n   }}\n   " + base[end:]
 
 
+def redecl_rel(p, rng):
+    return rng.below(len(p["rels"]))
+
+
 def module_redecl(name, p, rng):
     """an earlier declaration of a relation (same signature, different initialiser) that the later declaration must override"""
     nm = eng.Names()
-    r = rng.below(len(p["rels"]))
+    r = redecl_rel(p, rng)
     ar = p["rels"][r]["arity"]
     bogus = "(" + "".join("9," for _ in range(ar)) + ")"
     base = eng.rs_module(name, p)
@@ -161,6 +165,13 @@ def build(rng, tier):
             for vid, text, kind in variants:
                 if kind == "initialised": continue
                 inst = f"{vid}_{j}"
+                if kind == "redeclared" and j % 2 == 1:
+                    # the re-declared relation is NOT loaded: it must start empty (the later declaration has no initialiser), not from the earlier one's rows
+                    rr = redecl_rel(p, rng.fork(pid + "rd"))
+                    inp2 = {r: (rows if r != rr else []) for r, rows in inp.items()}
+                    ops = [f"eng new {inst} {vid}"] + engcheck.load_ops(inst, {r: rows for r, rows in inp2.items() if r != rr}) + [f"eng run {inst}", f"eng dump {inst}"]
+                    cases.append(engcheck.Case(vid, inst, ops, {"inp": inp2, "kind": kind + " (relation left to its declaration)"}))
+                    continue
                 cases.append(engcheck.Case(vid, inst, engcheck.std_history(inst, vid, inp), {"inp": inp, "kind": kind}))
         # the variants must stay transparent over a HISTORY too: run; push further facts; run again (aggregation-free bases: the
         # re-run equals a fresh run on the union, C13) — e.g. an attribute that changed how a later run() re-indexes would show here only
